@@ -84,6 +84,9 @@ def annotate_citations(
         if offset_updater:
             start = offset_updater.update(start, bisect_right)
             end = offset_updater.update(end, bisect_left)
+            # an empty span translates to end < start when material was
+            # inserted at that point: keep the span empty
+            end = max(start, end)
 
         # handle overlaps
         if start < last_end:
